@@ -255,7 +255,9 @@ int main(int argc, char** argv) {
 			}});
 		for (auto& x : th) x.join();
 		unsigned long long m = 0, n = 0, c = 0; for (unsigned t = 0; t < nt; ++t) { m += mism[t]; n += notrcp[t]; c += cnt[t]; }
-		Line l; l.str("e", "sweep").num("divisors", (long long)c).num("mismatch", (long long)m).num("notrcp", (long long)n); l.emit(out);
+		// counts can exceed 2^31 (TLC integers are 32-bit): 16-bit limbs
+		auto limbs3 = [](unsigned long long v) { return std::vector<long long>{ (long long)(v & 0xffff), (long long)((v >> 16) & 0xffff), (long long)(v >> 32) }; };
+		Line l; l.str("e", "sweep").nums("divisors", limbs3(c)).nums("mismatch", limbs3(m)).nums("notrcp", limbs3(n)); l.emit(out);
 	}
 	if (part == "fp" || part == "all") fp_events(rng, thorough ? 40000 : 3000);
 	if (part == "rcp" || part == "all") rcp_events(rng, thorough ? 20000 : 1500);
